@@ -2262,6 +2262,33 @@ impl PropertyStorage {
 
     /// Insert or update a property. Returns the old value if the key existed.
     pub fn insert(&mut self, key: PropertyKey, value: Property) -> Option<Property> {
+        // Integer-like keys enumerate first, in ascending order, before string keys in
+        // insertion order (OrdinaryOwnPropertyKeys): a new one goes into the sorted prefix
+        if let PropertyKey::Index(idx) = key
+            && self.get(&key).is_none()
+            && !self.is_empty()
+        {
+            if let PropertyStorage::Inline { entries, .. } = self {
+                let mut map = index_map_with_capacity(INLINE_PROPERTY_CAPACITY + 1);
+                let old = mem::replace(
+                    entries,
+                    core::array::from_fn(|_| {
+                        (PropertyKey::Index(0), Property::data(JsValue::Undefined))
+                    }),
+                );
+                let count = self.len();
+                for (k, v) in old.into_iter().take(count) {
+                    map.insert(k, v);
+                }
+                *self = PropertyStorage::Map(map);
+            }
+            if let PropertyStorage::Map(map) = self {
+                let position =
+                    map.partition_point(|k, _| matches!(k, PropertyKey::Index(i) if *i < idx));
+                map.shift_insert(position, key, value);
+                return None;
+            }
+        }
         match self {
             PropertyStorage::Inline { len, entries } => {
                 let current_len = *len as usize;
